@@ -130,6 +130,46 @@ fn corner() -> Vec<String> {
         fmt_case!("opt", "[{:#?}]", Some((1u8, "x")));
         fmt_case!("str", "[{:>8?}]", "a\"b");
     }
+    // a boxed `Hasher` is the hasher it wraps: every `write_*` reaches the inner hasher's *own* method of that name (a hasher may
+    // treat `write_u64(x)` differently from `write(&x.to_ne_bytes())`), and `finish` is the inner one's
+    {
+        use std::hash::Hasher;
+        #[derive(Default)]
+        struct Rec { log: Vec<String>, acc: u64 }
+        impl Rec { fn note(&mut self, what: String, v: u64) { self.log.push(what); self.acc = self.acc.wrapping_mul(31).wrapping_add(v); } }
+        impl Hasher for Rec {
+            fn finish(&self) -> u64 { self.acc ^ 0x5bd1e995 }
+            fn write(&mut self, b: &[u8]) { self.note(format!("write{:?}", b), b.iter().map(|x| *x as u64).sum()); }
+            fn write_u8(&mut self, i: u8) { self.note(format!("u8:{}", i), (i as u64).wrapping_add(1)); }
+            fn write_u16(&mut self, i: u16) { self.note(format!("u16:{}", i), (i as u64).wrapping_add(2)); }
+            fn write_u32(&mut self, i: u32) { self.note(format!("u32:{}", i), (i as u64).wrapping_add(3)); }
+            fn write_u64(&mut self, i: u64) { self.note(format!("u64:{}", i), i.wrapping_add(4)); }
+            fn write_u128(&mut self, i: u128) { self.note(format!("u128:{}", i), (i as u64).wrapping_add(5)); }
+            fn write_usize(&mut self, i: usize) { self.note(format!("usize:{}", i), (i as u64).wrapping_add(6)); }
+            fn write_i8(&mut self, i: i8) { self.note(format!("i8:{}", i), (i as u64).wrapping_add(7)); }
+            fn write_i16(&mut self, i: i16) { self.note(format!("i16:{}", i), (i as u64).wrapping_add(8)); }
+            fn write_i32(&mut self, i: i32) { self.note(format!("i32:{}", i), (i as u64).wrapping_add(9)); }
+            fn write_i64(&mut self, i: i64) { self.note(format!("i64:{}", i), (i as u64).wrapping_add(10)); }
+            fn write_i128(&mut self, i: i128) { self.note(format!("i128:{}", i), (i as u64).wrapping_add(11)); }
+            fn write_isize(&mut self, i: isize) { self.note(format!("isize:{}", i), (i as u64).wrapping_add(12)); }
+        }
+        fn drive<H: Hasher>(h: &mut H) {
+            h.write_u8(200); h.write_u16(40000); h.write_u32(7); h.write_u64(u64::MAX - 1); h.write_u128(1 << 100); h.write_usize(12345);
+            h.write_i8(-3); h.write_i16(-300); h.write_i32(-70000); h.write_i64(i64::MIN + 5); h.write_i128(-(1 << 90)); h.write_isize(-77);
+            h.write(&[1, 2, 3]);
+            std::hash::Hash::hash(&(5u32, "xy", -9i64), h);
+        }
+        let bump = Bump::new();
+        let mut bare = Rec::default();
+        drive(&mut bare);
+        let mut bb = bumpalo::boxed::Box::new_in(Rec::default(), &bump);
+        drive(&mut bb);
+        let mut sb: Box<Rec> = Box::new(Rec::default());
+        drive(&mut sb);
+        let show = |log: &Vec<String>, fin: u64| format!("finish={} calls={}", fin, log.join(","));
+        check("hasher-forwarding:vs-inner", Ok(show(&bb.log, bb.finish())), Ok(show(&bare.log, bare.finish())));
+        check("hasher-forwarding:vs-std-box", Ok(show(&bb.log, bb.finish())), Ok(show(&sb.log, sb.finish())));
+    }
     // a value whose order is only partial (an incomparable pair exists): the box compares exactly as the value does,
     // operator by operator (`le` is not `!gt` here)
     let vals = [f64::NAN, f64::NEG_INFINITY, -1.0, -0.0, 0.0, 1.5, f64::INFINITY];
